@@ -2,7 +2,7 @@
 import re
 
 from engine import rule, AnchorLost
-from model import Super, fn_of, trace, strace, is_place, site, const_value
+from model import Super, PathSens, fn_of, trace, strace, is_place, site, const_value, carriers, switches_on_carriers
 import common
 import deny
 import tables
@@ -59,6 +59,29 @@ def _ok_blocks(b):
     return out
 
 
+def _direct_writes_sup(sup):
+    """io::Write calls on (a field of) the root's self, in the entry point or an inlined same-crate helper:
+    [(node, term, template)]."""
+    out = []
+    for n, b, t in sup.calls():
+        if not common.is_io_write_call(t):
+            continue
+        tr = strace(sup, n, t["args"][0])
+        if tr.origin and tr.origin[0] == "arg" and tr.origin[1] == 1 and not tr.origin_node[0]:
+            tmpl = None
+            if fn_of(t)["name"] == "write_fmt":
+                tp = common.template_of(b, t["args"][1])
+                tmpl = tp[1] if tp else None
+            elif len(t["args"]) > 1:
+                c = strace(sup, n, t["args"][1])
+                if c.origin and c.origin[0] == "const":
+                    tmpl = c.origin[1].get("str")
+                    if tmpl is None and "bytes" in c.origin[1]:
+                        tmpl = bytes(c.origin[1]["bytes"]).decode("latin-1")
+            out.append((n, t, tmpl))
+    return out
+
+
 @rule("R03.1", 10, "framing: JSON writes exactly one '\\n' after each document, YAML exactly one '---\\n' before, MessagePack nothing", ["C03", "C10"])
 def r03_1(ctx):
     lib = ctx.lib
@@ -66,9 +89,10 @@ def r03_1(ctx):
     for fmt in ("json", "yaml", "msgpack"):
         for m in ("transcode_from", "transcode_value"):
             b = outs[fmt][m]
-            ws = _direct_writes(b)
-            sers = _serializer_calls(lib, b, fmt)
-            oks = _ok_blocks(b)
+            sup = Super(lib, b, depth=2)
+            ws = _direct_writes_sup(sup)
+            sers = [(((), bb), t) for bb, t in _serializer_calls(lib, b, fmt)]
+            oks = [((), bi) for bi in _ok_blocks(b)]
             key = f"{fmt}:{m}"
             ctx.ob(f"{key}:serializer-call", len(sers) >= 1, site(b), f"{len(sers)} serializer call(s)")
             if fmt == "msgpack":
@@ -78,20 +102,20 @@ def r03_1(ctx):
             ctx.ob(f"{key}:one-framing-write", len(ws) == 1 and ws[0][2] == want, site(b), f"direct writes: {[w[2] for w in ws]} (expected exactly [{want!r}])")
             if len(ws) != 1:
                 continue
-            wb = ws[0][0]
+            wn = ws[0][0]
             if fmt == "json":
-                after = all(b.dominates(sb, wb) and sb != wb for sb, _ in sers)
-                ctx.ob(f"{key}:newline-after-document", after, site(b, wb), "newline follows the serialised document" if after else "newline is not written after the document")
-                allok = all(b.dominates(wb, ob) for ob in oks) and bool(oks)
-                ctx.ob(f"{key}:newline-on-every-success", allok, site(b, wb), "every Ok return has passed the newline write" if allok else "a success path skips the newline (two documents would share a line)")
+                after = all(sup.dominates(sn, wn) and sn != wn for sn, _ in sers)
+                ctx.ob(f"{key}:newline-after-document", after, sup.site(wn), "newline follows the serialised document" if after else "newline is not written after the document")
+                allok = all(sup.dominates(wn, on) for on in oks) and bool(oks)
+                ctx.ob(f"{key}:newline-on-every-success", allok, sup.site(wn), "every Ok return has passed the newline write" if allok else "a success path skips the newline (two documents would share a line)")
             else:
-                before = all(b.dominates(wb, sb) and sb != wb for sb, _ in sers)
-                ctx.ob(f"{key}:marker-before-document", before, site(b, wb), "'---' precedes the serialised document" if before else "'---' is not written before the document")
-            ctx.ob(f"{key}:framing-write-once", not b.on_cycle(wb), site(b, wb), "framing write is not in a loop")
-            # the framing write's result is propagated (`?`)
-            res = ws[0][1]["dest"]["l"]
-            used = any((fn_of(tt) or {}).get("def") == "std::ops::Try::branch" and is_place(tt["args"][0]) and tt["args"][0]["p"]["l"] == res for _, tt in b.calls())
-            ctx.ob(f"{key}:framing-error-propagates", used, site(b, wb), "a failing framing write fails the translation" if used else "the framing write's error is ignored")
+                before = all(sup.dominates(wn, sn) and sn != wn for sn, _ in sers)
+                ctx.ob(f"{key}:marker-before-document", before, sup.site(wn), "'---' precedes the serialised document" if before else "'---' is not written before the document")
+            ctx.ob(f"{key}:framing-write-once", not sup.on_cycle(wn), sup.site(wn), "framing write is not in a loop")
+            # the framing write's result is propagated (`?`), directly or after being returned by a helper
+            carr = carriers(sup, wn, ws[0][1]["dest"]["l"])
+            used = any((fn_of(tt) or {}).get("def") == "std::ops::Try::branch" and is_place(tt["args"][0]) and (n_[0], tt["args"][0]["p"]["l"]) in carr for n_, _, tt in sup.calls())
+            ctx.ob(f"{key}:framing-error-propagates", used, sup.site(wn), "a failing framing write fails the translation" if used else "the framing write's error is ignored")
 
 
 @rule("R03.2", 7, "one sink per translator: outputs are constructed only by the dispatcher constructor, which only the translator constructor calls; entry points reborrow the same field", ["C03"])
@@ -153,16 +177,27 @@ def _iterator_impl_bodies(crate):
 
 @rule("R03.3", 3, "the CLI feeds one translator in argument order: constructed before the loop, no dropping/reordering adaptor", ["C03"])
 def r03_3(ctx):
-    import r_bin
+    import cliview
+    import r_cli
 
-    m, d = r_bin.main_calls(ctx.facts)
+    v = cliview.view(ctx.facts)
+    sup = v.sup
     binc = ctx.bin
-    ctx.need(d["new"], "translator construction not found")
-    nbb = d["new"][0][0]
-    ctx.ob("translator-not-in-loop", not m.on_cycle(nbb), site(m, nbb), "translator is constructed once, outside the input loop")
-    for bb, t in d["translate"]:
-        ctx.ob(f"translator-dominates:{r_bin._variant_key(m, bb)}", m.dominates(nbb, bb), site(m, bb), "every translate_* call uses the translator built before the loop")
-    bodies = [m] + [x[2] for x in d["parse"]] + _iterator_impl_bodies(binc) + binc.closures_of(m)
+    ctx.need(v.new, "translator construction not found")
+    nn = v.new[0][0]
+    ctx.ob("translator-not-in-loop", not sup.on_cycle(nn), v.site(nn), "translator is constructed once, outside the input loop")
+    for n_, b_, t_ in v.translate:
+        ctx.ob(f"translator-dominates:{r_cli._variant_key(t_)}", sup.dominates(nn, n_), v.site(n_), "every translate_* call uses the translator built before the loop")
+    # every bin body on the way from main to the translate calls (main, helpers, closures, the parser) and
+    # the path iterator
+    bodies = []
+    for n_ in sorted(v.nodes, key=str):
+        b_ = sup.body_of(n_)
+        if b_ not in bodies:
+            bodies.append(b_)
+    for b_ in _iterator_impl_bodies(binc) + binc.closures_of(v.main):
+        if b_ not in bodies:
+            bodies.append(b_)
     eps = common.input_entry_points(ctx.facts)
     for f_, b in eps.items():
         bodies.append(b)
@@ -359,9 +394,13 @@ def r05_2(ctx):
     lib = ctx.lib
     cap, guard = r_c09._capture_adts(lib)
     n = 0
-    for b in lib.bodies:
-        if not (b.raw.get("impl_trait") in ("std::convert::From", "std::convert::TryFrom") and "Input<" in b.local_ty(0)):
-            continue
+    bodies = []
+    for cb, sup in r_c09.conversion_supers(lib):
+        for nd in sorted(sup.nodes(), key=str):
+            bx = sup.body_of(nd)
+            if bx not in bodies and bx.raw.get("impl_self_adt") != cap:
+                bodies.append(bx)
+    for b in bodies:
         for bi, blk in enumerate(b.blocks):
             for s in blk["stmts"]:
                 if s["k"] == "assign" and s["rv"]["k"] == "cast" and "Unsize" in s["rv"]["cast"] and "dyn std::io::Read" in s["rv"]["ty"]:
@@ -372,9 +411,8 @@ def r05_2(ctx):
         for bi, blk in enumerate(b.blocks):
             for s in blk["stmts"]:
                 if s["k"] == "assign" and s["rv"]["k"] == "aggregate" and s["rv"].get("variant") == "Reader" and "Input" in s["rv"].get("adt", ""):
-                    tr = trace(b, s["rv"]["ops"][0])
                     src_ty = b.local_ty(s["rv"]["ops"][0]["p"]["l"]) if is_place(s["rv"]["ops"][0]) else ""
-                    ctx.ob(f"reader-arm:{s['line'] - b.raw['span']['line']}", cap not in src_ty, site(b, line=s["line"]), f"Input::Reader payload type {src_ty}", trivial=True)
+                    ctx.ob(f"reader-arm:{b.name}:{s['line'] - b.raw['span']['line']}", cap not in src_ty, site(b, line=s["line"]), f"Input::Reader payload type {src_ty}", trivial=True)
     ctx.ob("boxing-sites", n >= 1, "lib", f"{n} unsizing coercion(s) to Box<dyn Read> in the Handle->Input conversion")
 
 
@@ -384,36 +422,61 @@ def r05_3(ctx):
     trials = common.trial_functions(ctx.facts)
     n = 0
     for fmt, b in sorted(trials.items()):
-        for bb, t in b.calls():
+        # the trial with its same-crate helpers inlined
+        sup = Super(lib, b, depth=3)
+        ps = PathSens(sup)
+        for nn, bx, t in sup.calls():
             f = fn_of(t) or {}
             cb = lib.by_id.get(f.get("resolved") or f.get("def"))
             if cb and cb.raw.get("ret_ty", "").startswith("std::result::Result<&[u8], std::io::Error>") and len(t["args"]) == 2:
                 n += 1
                 v = const_value(t["args"][1]) if t["args"][1].get("k") == "const" else None
                 if v is None:
-                    tr = trace(b, t["args"][1])
+                    tr = strace(sup, nn, t["args"][1])
                     v = tr.origin[1].get("v") if tr.origin and tr.origin[0] == "const" else None
                 cap = (16 << 20) if fmt == "toml" else 4096
-                ctx.ob(f"{fmt}:prefix-size-constant", isinstance(v, int) and v <= cap, site(b, bb), f"prefix({v}) (accepted look-ahead for this trial: <= {cap} bytes)")
+                ctx.ob(f"{fmt}:prefix-size-constant", isinstance(v, int) and v <= cap, sup.site(nn), f"prefix({v}) (accepted look-ahead for this trial: <= {cap} bytes)")
                 if fmt == "toml" and isinstance(v, int):
-                    # compares the prefix length with the same constant and answers Ok(false) on >=
+                    # the prefix length is compared with the same constant and the at-or-above-cap outcome
+                    # never reaches the parser
+                    parsers = [x for x, _, tt in sup.calls() if (fn_of(tt) or {}).get("crate") == "toml"]
                     ok = False
-                    for bi in b.reach():
-                        for s in b.blocks[bi]["stmts"]:
-                            if s["k"] == "assign" and s["rv"]["k"] == "binop" and s["rv"]["op"] in ("Ge", "Gt", "Lt", "Le") and const_value(s["rv"]["b"]) == v:
-                                sw = b.blocks[bi]["term"]
-                                if sw["k"] == "switch":
-                                    te = sw["otherwise"] if s["rv"]["op"] in ("Ge", "Gt") else [x for vv, x in sw["targets"] if vv == 0][0]
-                                    r = b.reachable_from(te)
-                                    parses = [x for x in r if (fn_of(b.blocks[x]["term"]) or {}).get("crate") == "toml"]
-                                    ok = not parses
+                    for cn in sorted(sup.nodes(), key=str):
+                        cbody = sup.body_of(cn)
+                        for s in cbody.blocks[cn[1]]["stmts"]:
+                            if not (s["k"] == "assign" and s["rv"]["k"] == "binop" and s["rv"]["op"] in ("Ge", "Gt", "Lt", "Le") and const_value(s["rv"]["b"]) == v and not s["p"]["pr"]):
+                                continue
+                            over_when_true = s["rv"]["op"] in ("Ge", "Gt")
+                            carr = carriers(sup, cn, s["p"]["l"], extra_pass=("then_some",))
+                            for sn, sw, how in switches_on_carriers(sup, carr):
+                                sb = sup.body_of(sn)
+                                zero = [x for vv, x in sw["targets"] if vv == 0]
+                                one = [x for vv, x in sw["targets"] if vv == 1]
+                                edge = None
+                                if how == "value" and sw.get("discr_ty") == "bool":
+                                    edge = (sn, "otherwise", (sn[0], sw["otherwise"])) if over_when_true else ((sn, 0, (sn[0], zero[0])) if zero else None)
+                                elif how == "discr":
+                                    scrut = [st["rv"]["p"]["l"] for st in sb.blocks[sn[1]]["stmts"] if st["k"] == "assign" and st["rv"]["k"] == "discr"]
+                                    if not scrut or not sb.local_ty(scrut[-1]).startswith("std::option::Option<"):
+                                        continue
+                                    # bool::then_some: Some <=> the comparison held
+                                    want = 1 if over_when_true else 0
+                                    tgt = [x for vv, x in sw["targets"] if vv == want]
+                                    if tgt:
+                                        edge = (sn, want, (sn[0], tgt[0]))
+                                    elif want not in [vv for vv, _ in sw["targets"]]:
+                                        edge = (sn, "otherwise", (sn[0], sw["otherwise"]))
+                                if edge is None:
+                                    continue
+                                r = ps.reach_from_edge(*edge)
+                                if r and not [x for x in parsers if x in r]:
+                                    ok = True
                     ctx.ob("toml:gives-up-at-cap", ok, site(b), "input at or above the cap is answered without parsing" if ok else "the TOML trial parses a prefix that may be truncated at its cap")
         if fmt in ("json", "msgpack", "yaml"):
-            sup = Super(lib, b, depth=1)
             cyc = []
             for nn, bb_, t in sup.calls():
                 f = fn_of(t) or {}
-                if (f.get("crate") in ("serde_json", "rmp_serde", "serde_yaml") or (f.get("trait") == "std::iter::Iterator" and "Chunker" in f.get("self_ty", ""))) and sup.on_cycle(nn):
+                if (f.get("crate") in ("serde_json", "rmp_serde", "serde_yaml") or common.is_chunker_next(ctx.facts, f)) and sup.on_cycle(nn):
                     cyc.append(f["def"])
             ctx.ob(f"{fmt}:one-document-examined", not cyc, site(b), "parser calls are not in a loop" if not cyc else f"trial loops over the stream: {cyc}")
     ctx.ob("prefix-calls", n >= 3, "lib", f"{n} prefix accessor call(s)")
@@ -462,7 +525,15 @@ def r10_2(ctx):
     want = {v["name"] for v in marker["variants"] if "Array" in v["name"] or "Map" in v["name"]}
     got = set()
     found = False
-    for t in lib.tables_of(mp.id):
+    # the trial and the same-crate helpers / closures it reaches
+    msup = Super(lib, mp, depth=3)
+    owners = []
+    for n_ in sorted(msup.nodes(), key=str):
+        bid = msup.body_of(n_).id
+        if bid not in owners:
+            owners.append(bid)
+    mtables = [t for o in owners for t in lib.tables_of(o)]
+    for t in mtables:
         if "rmp::Marker" not in t["scrutinee_ty"]:
             continue
         for arm in t["arms"]:
@@ -483,9 +554,7 @@ def r10_2(ctx):
         ctx.ob(f"msgpack:marker:{nm}", (nm in want) == (nm in got), site(mp), f"rmp collection marker: {nm in want}; accepted by the trial: {nm in got}")
     # the filter's false edge answers Ok(false) without parsing; true edge parses
     # YAML: document kind table in the chunker
-    chunk_next = [b for b in lib.bodies if b.raw.get("impl_trait") == "std::iter::Iterator" and "Chunker" in b.raw.get("impl_self_ty", "")]
-    ctx.need(len(chunk_next) == 1, "chunker iterator not found")
-    cn = chunk_next[0]
+    cn = common.chunker(ctx.facts)["loop"]
     coll_events = set()
     scalar_events = set()
     for t in lib.tables_of(cn.id):
@@ -551,9 +620,7 @@ def r05_5(ctx):
                     shrinkers.setdefault(b.id, []).append(f["name"])
     ctx.ob("shrinkers-exist", bool(shrinkers), site(cr), f"methods that empty `{fld}`: { {k.rsplit('::', 1)[-1]: v for k, v in shrinkers.items()} }")
     movers = {k for k, v in shrinkers.items() if any(x in ("split_off", "replace", "take") for x in v)}
-    chunk_next = [b for b in lib.bodies if b.raw.get("impl_trait") == "std::iter::Iterator" and "Chunker" in b.raw.get("impl_self_ty", "")]
-    ctx.need(len(chunk_next) == 1, "chunker iterator not found")
-    cn = chunk_next[0]
+    cn = common.chunker(ctx.facts)["loop"]
     done = False
     for t in lib.tables_of(cn.id):
         if t["form"] != "match":
